@@ -36,6 +36,7 @@ CONSTANTS Files, Ads, Mats, APT, MPT, ITY, IPT, Isos,   \* key universes (IPT: i
           AdsUses, MatUses,                        \* [AdsVer -> SUBSET APT], [MatVer -> SUBSET MPT]
           IsoMat, IsoAds, IsoTy,                   \* [Isos -> Mats], [Isos -> Ads], [Isos -> ITY]
           IsoMatVer, IsoAdsVer,                    \* [Isos -> MatVer], [Isos -> AdsVer]
+          IsoTemp,                                 \* [Isos -> token of the number in the temperature column]
           IsoClass,                                \* [Isos -> {"plain","coerce","none","list"}]
           Traits                                   \* which known deviations the tree under test shows (Impl only)
 
@@ -76,7 +77,7 @@ MptReferenced(f, t) == \E m \in Mats : t \in UsesM(f.mats[m])
 ---------------------------------------------------------------------------
 (*                    Spec: the dictionary model                           *)
 (* An operation is a record                                                *)
-(*   [op, d, k, v, ow, ai, am, aa, by, cm, ca]                             *)
+(*   [op, d, k, v, ow, ai, am, aa, by, cm, ca, ct, cy]                     *)
 (* op in ads_to mat_to apt_to mpt_to ity_to iso_to ads_del mat_del apt_del *)
 (*       mpt_del ity_del iso_del ads_from mats_from apt_from mpt_from      *)
 (*       ity_from iso_from, and "session" (the Python process ends and a   *)
@@ -84,8 +85,10 @@ MptReferenced(f, t) == \E m \in Mats : t \in UsesM(f.mats[m])
 (*       d target file; k key; v content token;                            *)
 (* ow overwrite; ai autoinsert_properties; am/aa autoinsert_material /     *)
 (* _adsorbate; by = how the argument of a delete is given ("name", "obj",  *)
-(* "retrieved": through the object *_from_db returned); cm, ca = criteria  *)
-(* of isotherms_from_db ("*" = no criterion).                              *)
+(* "retrieved": through the object *_from_db returned); cm, ca, ct, cy =   *)
+(* criteria of isotherms_from_db on the columns material, adsorbate,       *)
+(* temperature, iso_type ("*" = no criterion; any other value must be      *)
+(* matched, whether it is falsy - temperature 0 - or matches nothing).     *)
 (***************************************************************************)
 
 \* adsorbate_to_db / material_to_db
@@ -161,7 +164,9 @@ SpecStep(f, o) ==
     [] OTHER -> {R("ok", f)}          \* retrievals always succeed and change nothing
 
 \* what a retrieval returns: exactly the stored content of exactly the selected keys
-IsoSelected(i, o) == (o.cm = "*" \/ o.cm = IsoMat[i]) /\ (o.ca = "*" \/ o.ca = IsoAds[i])
+\* Query(criteria) = the stored isotherms whose columns match ALL given criteria
+IsoSelected(i, o) == /\ (o.cm = "*" \/ o.cm = IsoMat[i]) /\ (o.ca = "*" \/ o.ca = IsoAds[i])
+                     /\ (o.ct = "*" \/ o.ct = IsoTemp[i]) /\ (o.cy = "*" \/ o.cy = IsoTy[i])
 SpecRetrieve(f, o) ==
   IF o.op = "iso_from"
   THEN [i \in Isos |-> IF IsoSelected(i, o) THEN f.isos[i] ELSE Absent]
